@@ -88,6 +88,12 @@ pub enum Op {
     /// write attempts (set_value, try_borrow_value_mut) while a shared guard on the innermost instance is
     /// alive: must be refused and must not fall through to a shadowed outer instance
     GuardedWrite(u8),
+    /// `holding::<T>`: the innermost instance is taken out, written through the held reference and put back into
+    /// its scope; while it is out, a lookup of T sees the instance it shadowed (or none)
+    Holding(u8),
+    /// `try_get_multiple_mut::<(T, type 0)>()`: each element resolves to the innermost scope holding it (a repeated
+    /// type or a missing one is an error and changes nothing); both are written through the references
+    GetMultiple(u8),
 }
 
 pub type Model = Vec<BTreeMap<u8, u32>>; // root .. innermost
@@ -154,6 +160,8 @@ impl<'a> Run<'a> {
             Op::Pop => self.op_pop(),
             Op::WithInner(t, fail) => dispatch_ty!(t, op_with_inner, self, t, fail),
             Op::GuardedWrite(t) => dispatch_ty!(t, op_guarded_write, self, t),
+            Op::Holding(t) => dispatch_ty!(t, op_holding, self, t),
+            Op::GetMultiple(t) => dispatch_ty!(t, op_get_multiple, self, t),
         }
     }
 
@@ -507,6 +515,62 @@ fn op_guarded_write<'a, T: St<'a>>(run: &mut Run<'a>, t: u8) -> Result<bool, Vio
     Ok(present)
 }
 
+fn op_holding<'a, T: St<'a> + better_any::TidAble<'a>>(run: &mut Run<'a>, t: u8) -> Result<bool, Viol> {
+    let v = run.fresh();
+    let k = innermost(&run.model, t);
+    let shadowed = k.and_then(|k| (0..k).rev().find(|&j| run.model[j].contains_key(&t)).map(|j| run.model[j][&t]));
+    let mut seen: Option<(u32, Option<u32>)> = None;
+    let res = run.st().holding::<T>(|held, rest| {
+        let before = **held;
+        **held = v;
+        seen = Some((before, rest.try_get_value::<T>().ok()));
+        Ok(())
+    });
+    match (k, res) {
+        (None, Err(_)) => Ok(false),
+        (None, Ok(())) => Err(("holding:absent-type-invented".into(), format!("holding::<{t}>() ran its closure although no scope holds the type (saw {seen:?})"))),
+        (Some(_), Err(e)) => Err(("holding:fails-on-a-present-type".into(), format!("type {t}: {e}"))),
+        (Some(k), Ok(())) => {
+            let want = (run.model[k][&t], shadowed);
+            if seen != Some(want) {
+                return Err(("holding:wrong-instance-held-or-not-taken-out".into(), format!("type {t}: closure saw (held value, value visible in the rest) = {seen:?}, model {want:?}")));
+            }
+            run.model[k].insert(t, v);
+            Ok(true)
+        }
+    }
+}
+
+fn op_get_multiple<'a, T: St<'a>>(run: &mut Run<'a>, t: u8) -> Result<bool, Viol> {
+    let (v, w) = (run.fresh(), run.fresh());
+    let (kt, k0) = (innermost(&run.model, t), innermost(&run.model, 0));
+    let want: Result<(u32, u32), &'static str> = if t == 0 {
+        Err("MultipleBorrowConflict")
+    } else {
+        match (kt, k0) {
+            (Some(a), Some(b)) => Ok((run.model[a][&t], run.model[b][&0])),
+            _ => Err("NotFound"),
+        }
+    };
+    let got = match run.st().try_get_multiple_mut::<(T, SL<'a>)>() {
+        Ok((x, y)) => {
+            let old = (**x, **y);
+            **x = v;
+            **y = w;
+            Ok(old)
+        }
+        Err(e) => Err(err_class(&e)),
+    };
+    if got != want {
+        return Err(("get_multiple_mut:wrong".into(), format!("try_get_multiple_mut::<({t}, 0)>() gave {got:?}, model {want:?}")));
+    }
+    if want.is_ok() {
+        run.model[kt.unwrap()].insert(t, v);
+        run.model[k0.unwrap()].insert(0, w);
+    }
+    Ok(want.is_ok())
+}
+
 fn op_with_inner<'a, T: St<'a>>(run: &mut Run<'a>, t: u8, fail: bool) -> Result<bool, Viol> {
     let v = run.fresh();
     let w = run.fresh();
@@ -577,6 +641,8 @@ pub fn alphabet(ntypes: u8) -> Vec<Op> {
             Op::WithInner(t, false),
             Op::WithInner(t, true),
             Op::GuardedWrite(t),
+            Op::Holding(t),
+            Op::GetMultiple(t),
         ]);
     }
     v
@@ -651,5 +717,7 @@ pub fn op_name(op: Op) -> &'static str {
         Op::Pop => "into_parent",
         Op::WithInner(..) => "with_inner_state",
         Op::GuardedWrite(_) => "guarded-write",
+        Op::Holding(_) => "holding",
+        Op::GetMultiple(_) => "get_multiple_mut",
     }
 }
